@@ -152,8 +152,15 @@ def run(ctx):
             for colocate in (True, False):
                 nl = rng.choice([1, 2, 3, 5, w, w + 3])
                 work = gen.gen_work(rng, nlayers=nl)
-                ranks = None if w <= 12 else set(rng.sample(range(w), 4))
+                ranks = None if w <= 24 else set(rng.sample(range(w), 4))
                 one_case(ctx, lines, pend, w, k, colocate, work, ranks)
+    # larger, non-power-of-two worlds: EVERY rank's view (index arithmetic on rank/world/worker counts goes wrong, if it
+    # does, at isolated (world, rank) pairs), one small cost dictionary
+    big = [22, 26, 28, 30, 36, 40, 44, 46, 48, 52, 60, 66, 72, 96, 98, 100]
+    for w in (big if ctx.tier == 'thorough' else [22] + rng.sample(big[1:], 3)):
+        for k in gen.divisors(w):
+            if 1 < k < w or rng.random() < 0.3:
+                one_case(ctx, lines, pend, w, k, rng.random() < 0.5, gen.gen_work(rng, nlayers=2), None)
     ctx.exhaustive = True
     ctx.notes.append(f'enumerated every (world<= {wmax}, k | world, colocate) exhaustively; cost dicts random')
     # random cost dictionaries
@@ -216,6 +223,46 @@ def run(ctx):
     strategy_stream(ctx)
     history_stream(ctx)
     interpreter_stream(ctx)
+    precond_stream(ctx)
+
+
+def precond_stream(ctx):
+    """the views the real KFACPreconditioner builds on every rank of a simulated multi-node launch (LOCAL_RANK differs
+    from the rank): the statement evaluated on what each rank's own assignment object answers"""
+    import kfacsim
+    rng = ctx.rng
+    for i in range(ctx.budget(10, 80)):
+        cfg = kfacsim.Config(rng, world=rng.choice([2, 3, 4, 6, 8]))
+        cfg.ops = []
+        rr = kfacsim.run_real(cfg, sched_seed=ctx.seed * 31 + i)
+        case = dict(cfg.describe(), stream='preconditioner-views')
+        if kfacsim.run_failed(rr) or any(x is None or 'assign' not in x for x in rr.res):
+            ctx.fail(f'construction failed: {kfacsim.run_failed(rr)}', case, 'precond-ctor')
+            continue
+        w, k = cfg.world, cfg.k
+        views = [rr.res[r]['assign'] for r in range(w)]
+        nl = len(views[0]['gw'])
+        bad = None
+        for r, v in enumerate(views):
+            if (v['inva'], v['invg']) != (views[0]['inva'], views[0]['invg']):
+                bad = f'inverse workers differ between rank 0 and rank {r}'
+            if r not in v['recv'] or len(v['recv']) != w // k:
+                bad = f'rank {r} uses the receiver group {v["recv"]} (size {w // k} expected, containing the rank)'
+            if v['bg'] != (k < w) or v['bi'] != (k > 1):
+                bad = f'broadcast flags on rank {r} do not match the strategy'
+        for l in range(nl):
+            workers = {r for r in range(w) if views[r]['gw'][l]}
+            if len(workers) != k:
+                bad = bad or f'layer {l}: {len(workers)} ranks consider themselves gradient workers, {k} expected'
+            for r, v in enumerate(views):
+                s_ = v['src'][l]
+                if s_ not in workers or s_ not in v['recv'] or (v['gw'][l] and s_ != r):
+                    bad = bad or f'layer {l}: rank {r} takes its gradient from {s_} (workers {sorted(workers)}, receiver group {v["recv"]})'
+        if bad:
+            ctx.fail(bad, case, 'precond-views')
+        ctx.evaluations += 1
+        ctx.case(('precond-views', cfg.world, cfg.k, cfg.colocate, str(cfg.arch)), nontrivial=cfg.world > 1)
+        ctx.count('precond-views')
 
 
 def history_stream(ctx):
